@@ -189,6 +189,12 @@ func (pndb *PNodeDB) PruneBelowVersion(ctx context.Context, version int64) error
 		maxPruneNodes = 1000
 	)
 
+	if version <= 0 {
+		// nothing is recorded below round 0; a negative version must not wrap around in the
+		// unsigned comparison below and prune every record
+		return nil
+	}
+
 	type deadNodesRecord struct {
 		round     uint64
 		nodesKeys []Key
